@@ -49,10 +49,10 @@ NB_PEG = [(t[0], t[1], t[2], 'Q') for t in NB_PEG] + [(t[0], t[1], t[2] + ' — 
 NB_PEG_STACK = [t for t in NB_PEG if t[1] in ('nb_peg_push_pop', 'nb_peg_pred', 'nb_peg_rep_choice', 'nb_peg_slice', 'nb_peg_bal', 'nb_peg_optpush', 'nb_peg_reppush', 'nb_peg_repbal', 'nb_peg_predmut', 'nb_peg_repminfail', 'nb_peg_repmmfail', 'nb_peg_repnoprogress', 'nb_peg_repnullable', 'nb_peg_skippush')]
 NB_SLICES = ('nb_slices', 'nb_slices', 'all stacks of depth<=4 over {a,bb} x all PEEK[a..b], PEEK[a..] with a,b in -6..=6 x all inputs<=5 chars', 'q')
 NB_PEG_D1 = ('nb_peg', 'nb_peg_d1', 'PUSH(a) ~ ((POP? ~ b) | PEEK); all strings<=6 chars over {a,b}', 'q')
-NB_GEN = ('derive:nb_gen', 'nb_gen_vs_pest', 'generated parser vs pest: 38 rules (all kinds/operators, built-ins, stack slices) x all strings<=5 chars over 3 alphabets', 'Q')
-NB_GEN_T = ('derive:nb_gen', 'nb_gen_vs_pest', 'generated parser vs pest: 38 rules x all strings<=7 chars over 3 alphabets', 't', {'VERIF_NB_L': '7'})
+NB_GEN = ('derive:nb_gen', 'nb_gen_vs_pest', 'generated parser vs pest: 39 rules (all kinds/operators, built-ins, stack slices) x all strings<=5 chars over 3 alphabets', 'Q')
+NB_GEN_T = ('derive:nb_gen', 'nb_gen_vs_pest', 'generated parser vs pest: 39 rules x all strings<=7 chars over 3 alphabets', 't', {'VERIF_NB_L': '7'})
 NB_GEN_SUB_REL = ('derive:nb_gen', 'nb_gen_subinput@release', 'RELEASE profile (debug assertions off, unchecked slicing): 22 entry rules x all strings<=4 chars x all sub-ranges', 'q', {'VERIF_PROFILE': 'release'})
-NB_GEN_REL = ('derive:nb_gen', 'nb_gen_vs_pest@release', 'RELEASE profile: 38 rules x all strings<=5 chars over 3 alphabets', 'q', {'VERIF_PROFILE': 'release'})
+NB_GEN_REL = ('derive:nb_gen', 'nb_gen_vs_pest@release', 'RELEASE profile: 39 rules x all strings<=5 chars over 3 alphabets', 'q', {'VERIF_PROFILE': 'release'})
 NB_INPUT_REL = ('nb_input', 'nb_skip_contract@release', 'RELEASE profile: skip / Position::next on all strings<=4 chars x all spans', 'q', {'VERIF_PROFILE': 'release'})
 NB_GEN_SKIPTOK = ('derive:nb_gen', 'nb_gen_skip_tokens', 'generated parser vs pest, grammar with NON-silent WHITESPACE/COMMENT: 5 rules x all strings<=6 tokens over 2 alphabets', 'q')
 NB_GEN_SKIP_ONLY = ('derive:nb_gen', 'nb_gen_skip_only', 'generated parser vs pest, grammars defining ONLY a non-silent WHITESPACE / ONLY a non-silent COMMENT (own generator arms): 4 rules each x all strings<=7 chars over {a,b,comma,blank}', 'q')
@@ -223,6 +223,7 @@ PROPS = {
         'native': [
             ('nb_linecol', 'nb_linecol', 'all strings<=6 chars over {LF,CR,a,é,€,😀} x all boundary offsets', 'Q'),
             ('nb_linecol', 'nb_linecol', 'all strings<=7 chars over {LF,CR,a,é,€,😀} x all boundary offsets', 't', {'VERIF_NB_L': '7'}),
+            ('nb_span', 'nb_span', 'positions handed out by Span::split / start_pos / end_pos (line_col, line_of vs pest) on all strings<=4 chars over {LF,CR,a,é,€} x all spans', 'q'),
         ],
         'explanation': 'Every (string, offset) pair within the bound is executed on the real Position::line_col/line_of and compared with pest::Position; obligations/discharged are zero because nothing is proved beyond the bound.',
         'assumptions': ['pest::Position (2.7.14) is the reference, as the property states'],
